@@ -429,3 +429,68 @@ def c11(ctx):
     ctx.floor("blockloop", 2)
     ctx.floor("bytes-once", 12)
     ctx.undecided_clauses.append("mixing constants, rotation amounts, operation order: equality with the published algorithms on all inputs is not decided by these rules")
+
+
+# ---------------------------------------------------------------------------
+from . import rules_par as RP
+
+
+@prop("C08", "other",
+      "Protocol clauses of 'every item exactly once, every worker's sketch merged exactly once, nothing merged before its worker "
+      "finished', decided structurally: the filler puts each item once and then at least one pill per started worker (same n_workers "
+      "binding) (pills); the worker loop takes one item per iteration, applies the callback exactly once to a non-None item and returns "
+      "only on None (once); record counts accumulate once per item and are added once to slot 1 of each sketch, and every merge kernel "
+      "sums both bookkeeping slots (nrecs, sumcounters); all workers are joined before the first merge and the per-worker arrays are "
+      "what is merged (joinfirst); the pairwise merge schedule is interpreted on abstract slot sets for every worker count 1..64 "
+      "(1..1024 thorough): disjoint pairs per round, only merged sources discarded, termination, result holds every sketch exactly once "
+      "(mergetree); the return table covers all 7 sketch combinations in alphabetical order (rettable); prange bodies write only their "
+      "own row (cover); descriptor tables agree (attach-table). Known finding F2: items is pickled by the spawn context (spawn-pickle). "
+      "Not decided: OS scheduling; that merged sketches satisfy C01/C03/C04 (their own properties).",
+      trusted=("multiprocessing.Queue delivers each put item to exactly one get", "spawn context pickles Process args"))
+def c08(ctx):
+    F = facts_of(ctx)
+    RP.rule_pills(ctx)
+    RP.rule_once(ctx)
+    RP.rule_nrecs(ctx)
+    RP.rule_joinfirst(ctx)
+    RP.rule_mergetree(ctx)
+    RP.rule_rettable(ctx)
+    RP.rule_spawn_pickle(ctx)
+    RT.rule_attach_table(ctx)
+    mk = RA.merge_kernels(F)
+    RA.rule_sumcounters(ctx, [k for k in mk if F.param_for(k, "n_added_records")], rule="nrecs")
+    RA.rule_cover(ctx, [k for k in mk if k.parallel])
+    RA.rule_other_ro(ctx, mk)
+    ctx.floor("pills", 5)
+    ctx.floor("once", 6)
+    ctx.floor("nrecs", 12)
+    ctx.floor("joinfirst", 4)
+    ctx.floor("mergetree", 3)
+    ctx.floor("rettable", 10)
+    ctx.floor("spawn-pickle", 1)
+
+
+@prop("C19", "other",
+      "Error discipline of the worker loop and a must-raise path rule for dead workers, decided structurally: the callback call is "
+      "inside a try whose handler catches Exception, neither re-raises nor leaves the loop, sets the item's record count to literal 0, "
+      "and the accumulation after the try is shared by both paths (cb-guard); the monitor inspects the exit code of every started worker "
+      "and treats every non-zero, non-None code as failure (dead-detect); on failure all workers and the filler are killed before the "
+      "unconditional joins (dead-cleanup); from the failure branch every path to a return passes through a raise -- explicit, or a put on "
+      "a queue the branch closed (queue typestate open->closed; put on closed raises ValueError) (dead-raise). Not decided: wall-clock "
+      "termination bounds; a worker that hangs without dying.",
+      trusted=("multiprocessing.Queue.put on a closed queue raises ValueError (CPython queues.py)",))
+def c19(ctx):
+    RP.rule_cb_guard(ctx)
+    RP.rule_dead(ctx)
+    RP.rule_once(ctx)
+    RP.rule_nrecs(ctx)
+    ctx.floor("cb-guard", 5)
+    ctx.floor("dead-detect", 3)
+    ctx.floor("dead-cleanup", 3)
+    ctx.floor("dead-raise", 1)
+    # advisory, outside C19's anchors
+    pm = ctx.model.func("helpers", "parallel_merging")
+    import ast as _ast
+    for n in _ast.walk(pm.node):
+        if isinstance(n, _ast.Compare) and isinstance(n.left, _ast.Attribute) and n.left.attr == "exitcode" and isinstance(n.ops[0], _ast.Lt):
+            ctx.note("advisory (not a C19 violation, outside its anchors): parallel_merging tests `exitcode < 0` only; a merge worker exiting with code 1 goes unnoticed")
